@@ -195,11 +195,16 @@ Theorem C20_link_free_copy_is_fs_put : forall fuel src dst f c, entry_eqb src ds
   U20L.copy_replace fuel src dst (U20L.erase f) = Some (U20L.erase (fs_put dst c f)) /\
   U20L.copy_through fuel src dst (U20L.erase f) = Some (U20L.erase (fs_put dst c f)).
 Proof. exact U20L.link_free_copy. Qed.
-(* a move renames NAMES: a run of moves out of dir into dest, succeeding or failing half way, touches no name of any other
-   directory - a link among the moved files is moved as the link it is, what it points at stays *)
-Theorem C20_move_stays_in_the_two_directories : forall dir dest names f e,
-  str_eqb (fst e) dest = false -> str_eqb (fst e) dir = false -> U20L.lget e (fst (U20L.moves dir dest names f)) = U20L.lget e f.
+(* a run of moves out of dir into dest, succeeding or failing half way, touches no name of any other directory; a plain file is
+   renamed, a link among the moved files arrives as the bytes it denoted and is removed at its source - what it pointed at
+   stays (internal.Move, the repair of the r15 finding: a link renamed over the file it points at, or left dangling) *)
+Theorem C20_move_stays_in_the_two_directories : forall fuel dir dest names f e,
+  str_eqb (fst e) dest = false -> str_eqb (fst e) dir = false -> U20L.lget e (fst (U20L.moves fuel dir dest names f)) = U20L.lget e f.
 Proof. exact U20L.moves_stay_in_the_two_directories. Qed.
+Theorem C20_moved_link_arrives_as_its_bytes : forall src dst f f' fuel t c, U20L.move_node fuel src dst f = Some f' ->
+  U20L.lget src f = Some (U20L.Link t) -> U20L.read fuel src f = Some c -> U20L.same_file fuel src dst f = false ->
+  entry_eqb src dst = false -> U20L.lget dst f' = Some (U20L.File c) /\ U20L.lget src f' = None.
+Proof. exact U20L.move_node_delivers_link. Qed.
 Example C20_written_through_before_the_repair : exists f',
   U20L.copy_through 40 (GS.s "upload", GS.s "foo_1.0.tar.gz") (GS.s "incoming", GS.s "foo_1.0.tar.gz") U20L.ex_fs = Some f' /\
   U20L.lget (GS.s "outside", GS.s "precious") f' = Some (U20L.File (GS.s "payload")) /\
